@@ -7,6 +7,8 @@ Decided:
   C19.min    every candidate selection uses a minimum combinator (min_by_key / min_by), keyed by the written /
              estimated size; no maximum combinator is used for selection
   C19.const  the all-zero and all-wasted early exits return the constant recorder (one sample regardless of length)
+  C19.orders encode_fixed_subframe tries every FIXED order its four difference buffers allow (no limiting adaptor on the
+             order loop) and selects among all computed orders: what makes a constant non-zero block cost a few bytes
 Not decided: the numeric bound itself (header sizes, Rice estimate accuracy).
 """
 from rules.common import *
@@ -116,6 +118,23 @@ def run(ctx, rep):
                 if cb is None:
                     continue
     rep.floor("C19.min", "minimum selections", total, 4)
+    # ---- C19.orders: a constant (non-zero) block is cheap only because FIXED order 1 is tried: all four difference
+    # orders are attempted, the only early exits being an overflowing difference or a block shorter than the order
+    fb = anchor(F, rep, "C19.orders", "encode::encode_fixed_subframe")
+    if fb is not None:
+        fc = F.adts.get("encode::FixedCache")
+        ty = fc["variants"][0]["fields"][0]["ty"] if fc else ""
+        rep.check("C19.orders", "FixedCache holds four difference buffers (orders 1..=4)", re.search(r";\s*4\]$", ty) is not None, "src/encode.rs", ty)
+        LIMITING = ("Take<", "Skip<", "StepBy<", "Filter<", "FilterMap<", "TakeWhile<", "SkipWhile<", "MapWhile<", "Scan<")
+        loops = [t for _, t in fb.calls() if re.search(r"IntoIterator>::into_iter$", callee_name(t)) and t["aty"] and ("std::vec::Vec<i32>" in t["aty"][0] or t["aty"][0].startswith("std::ops::Range<usize>"))]
+        good = len(loops) == 1 and not any(x in loops[0]["aty"][0] for x in LIMITING)
+        if good and loops[0]["aty"][0].startswith("std::ops::Range"):
+            sl = backward_slice(fb, loops[0]["a"][0])
+            good = 4 in sl["consts"] or any(callee_name(c).endswith("::len") for c in sl["calls"])
+        rep.check("C19.orders", "encode_fixed_subframe computes the differences for every buffer (no take / skip / filter on the order loop)", good, loc_of(fb), str([t["aty"][0] for t in loops]),
+                  "the loop over the FIXED difference buffers is limited (%s): higher orders are never tried for some inputs, so e.g. a constant block at high bit depth is stored at verbatim size" % [t["aty"][0] for t in loops])
+        av = [t for _, t in fb.calls() if re.search(r"ArrayVec<T, CAP> as std::iter::IntoIterator>::into_iter$", callee_name(t)) and re.search(r",\s*5>$", t["aty"][0])]
+        rep.check("C19.orders", "all of orders 0..=4 that were computed take part in the selection", len(av) == 1, loc_of(fb))
     # keys: closures passed to min_by_key in encode_subframe / correlate_channels_exhaustive use written()
     for path in ("encode::encode_subframe",):
         fb = anchor(F, rep, "C19.min", path)
